@@ -1027,35 +1027,25 @@ def classify_failure(o, ans, is_open=None):
     """stable key of an open known finding (see known_findings.txt), or None. Only the structure of the source network
     is consulted; the verdict itself is Lean's. `is_open(key)`: the key is still recorded as open - a construct whose
     defect has been repaired must not claim a failure that belongs to another, open, key (quick seed 2, network 1946:
-    PRELU -> SQUEEZE plus a wide-stride average pool)."""
-    k = _classify_failure(o, ans, set(), is_open)
-    return k
-
-
-def _classify_failure(o, ans, skip, is_open):
+    PRELU -> SQUEEZE plus a wide-stride average pool; thorough seed 0, network 11553: PRELU -> RESHAPE plus a strided
+    convolution). Without `is_open`, or when no candidate is open, the first candidate."""
     first = None
-    for _ in range(8):
-        k = _classify_failure_once(o, ans, skip)
-        if k is None:
-            return first
+    for k in _classify_candidates(o, ans):
         if is_open is None or is_open(k):
             return k
-        if k in skip:                 # a key whose branch does not look at `skip`: nothing further to try
-            return first or k
         first = first or k
-        skip.add(k)
     return first
 
 
-def _classify_failure_once(o, ans, skip):
+def _classify_candidates(o, ans):
+    """every recorded key whose construct is in the source network and whose failure shape matches, in priority order"""
     g = o.get("src_graph") or []
     if "weights_do_not_fit_the_IFM_depth" in ans:
         # AVERAGE_POOL_2D with a width stride >= 4 lowered to a convolution with one input channel
         shapes, strides = o.get("src_shapes") or [], o.get("src_strides") or []
         for n_op, (kind, ins, outs, faf, pad, stride) in enumerate(g):
             if kind == "AVERAGE_POOL_2D" and n_op < len(strides) and strides[n_op][1] >= 4 and ins[0] < len(shapes) and shapes[ins[0]][-1] > 1:
-                if "avgpool-wide-stride-as-conv:weights-have-one-input-channel" not in skip:
-                    return "avgpool-wide-stride-as-conv:weights-have-one-input-channel"
+                yield "avgpool-wide-stride-as-conv:weights-have-one-input-channel"
     if ans.endswith("verdict=fail"):
         # Maximum(x, Mul(x, c)) with a constant scalar c taken for LeakyRelu / Relu / Abs on its quantised value
         quant, scalars = o.get("src_quant") or [], o.get("src_scalars") or {}
@@ -1071,17 +1061,17 @@ def _classify_failure_once(o, ans, skip):
                         q, zpc, sc = scalars[c[0]], quant[c[0]][1][0], float(np.float32(quant[c[0]][0][0]))
                         real = (q - zpc) * sc
                         if q == 0 and zpc != 0:
-                            return "mul-max-to-relu:quantised-zero-with-nonzero-zero-point"
+                            yield "mul-max-to-relu:quantised-zero-with-nonzero-zero-point"
                         if q == -1 and real != -1:
-                            return "mul-max-to-abs:quantised-minus-one-not-real-minus-one"
+                            yield "mul-max-to-abs:quantised-minus-one-not-real-minus-one"
                         if q >= 0 and real > 1:
-                            return "mul-max-to-lrelu:real-constant-above-one"
+                            yield "mul-max-to-lrelu:real-constant-above-one"
         # dilation above 2 (sparse kernel built in software) with asymmetric (uint8) weights
         dils = o.get("src_dilations") or []
         for n_op, (kind, ins, outs, faf, pad, stride) in enumerate(g):
             if kind in ("CONV_2D", "DEPTHWISE_CONV_2D") and n_op < len(dils) and dils[n_op] > 2 and len(ins) > 1 and ins[1] < len(quant) \
                     and any(z != 0 for z in quant[ins[1]][1]):
-                return "software-dilation:inserted-taps-zero-instead-of-weight-zero-point"
+                yield "software-dilation:inserted-taps-zero-instead-of-weight-zero-point"
         # SAME-padded CONV_2D whose width gets folded into the channels (first operator with a width stride > 1, or any with a width
         # stride > 3): explicit padding from the unfolded width when the OFM height/width is 1, misaligned filter zero columns otherwise
         shapes, strides = o.get("src_shapes") or [], o.get("src_strides") or []
@@ -1089,51 +1079,50 @@ def _classify_failure_once(o, ans, skip):
             if kind == "CONV_2D" and pad == 0 and n_op < len(strides) and strides[n_op][1] > 1 and (n_op == 0 or strides[n_op][1] > 3):
                 osh = shapes[outs[0]] if outs[0] < len(shapes) else []
                 if len(osh) == 4 and (osh[1] == 1 or osh[2] == 1):
-                    return "strided-conv-fold:unit-output-padding-from-unfolded-width"
-                return "strided-conv-fold:filter-zero-padding-misaligned"
+                    yield "strided-conv-fold:unit-output-padding-from-unfolded-width"
+                yield "strided-conv-fold:filter-zero-padding-misaligned"
         # PAD with channel (or batch) padding and spatial padding at once: convert_pad_to_concat keeps only the channel part
         pads = o.get("src_pads") or {}
         for kind, ins, outs, faf, pad, stride in g:
             if kind == "PAD" and len(ins) > 1 and ins[1] in pads:
                 pv = pads[ins[1]]
                 if (sum(pv[-1]) != 0 or (len(pv) == 4 and sum(pv[0]) != 0)) and sum(pv[-3]) + sum(pv[-2]) != 0:
-                    return "pad-spatial-and-channel-padding:spatial-part-dropped"
+                    yield "pad-spatial-and-channel-padding:spatial-part-dropped"
         # int16 LEAKY_RELU with differing scales lowered to Maximum(Mul, Mul): each branch rounds twice
         if o.get("dtype") == "int16" and re.search(r"maxdiff=1 ", ans) and not re.search(r"maxdiff=([2-9]|1\d)", ans):
             for kind, ins, outs, faf, pad, stride in g:
                 if kind == "LEAKY_RELU" and quant and quant[ins[0]][0] != quant[outs[0]][0]:
-                    return "int16-lrelu-mul-max-rounds-each-branch"
+                    yield "int16-lrelu-mul-max-rounds-each-branch"
     # (keys of the second C01 worker; the wide-stride average pool and the dilation-above-two zero fill are the same defects as
     # the two keys above, reached when the more specific conditions above do not hold)
-    if (ans.endswith("verdict=fail") or ans.startswith("err:out:")) and wide_stride_avgpool(o) \
-            and "wide-stride-avgpool-converted-with-one-input-channel-kernel" not in skip:
-        return "wide-stride-avgpool-converted-with-one-input-channel-kernel"
+    if (ans.endswith("verdict=fail") or ans.startswith("err:out:")) and wide_stride_avgpool(o):
+        yield "wide-stride-avgpool-converted-with-one-input-channel-kernel"
     if ans.endswith("verdict=fail") and mean_over_unit_axes(o):
-        return "mean-over-unit-axes-drops-requantisation"
+        yield "mean-over-unit-axes-drops-requantisation"
     if ans.endswith("verdict=fail") and protected_tensor_reshaped_into_elementwise(o):
-        return "write-protected-tensor-shares-memory-with-reshape-copy"
+        yield "write-protected-tensor-shares-memory-with-reshape-copy"
     if ans.endswith("verdict=fail") and transpose_then_activation(o):
-        return "transpose-then-packed-activation-loses-transposition"
+        yield "transpose-then-packed-activation-loses-transposition"
     if ans.endswith("verdict=fail") or ans.startswith("err:out:"):
         k = weights_findings(o)
         if k is not None:
-            return k
+            yield k
     if ans.endswith("verdict=fail") or ans.startswith("err:out:"):
         k = lowered_then_reshaped(o)
         if k is not None:
-            return k + "-then-reshape-lowered-with-reshaped-ofm-shape"
+            yield k + "-then-reshape-lowered-with-reshaped-ofm-shape"
     if ans.endswith("verdict=fail") and ofm_batch_above_one(o):
-        return "ofm-batch-above-one-accepted-on-npu"
+        yield "ofm-batch-above-one-accepted-on-npu"
     if not (ans.endswith("verdict=fail") or "read_outside_region" in ans) or o.get("dtype") != "int16":
-        return None
+        return
     consumers = {}
     for kind, ins, outs, faf, pad, stride in g:
         for t in ins:
             consumers.setdefault(t, []).append(kind)
     for kind, ins, outs, faf, pad, stride in g:
         if kind == "LEAKY_RELU" and any(c in MEMORY_ONLY for c in consumers.get(outs[0], [])):
-            return "int16-lrelu-mul-max-then-reshape-recomputes-shapes"
-    return None
+            yield "int16-lrelu-mul-max-then-reshape-recomputes-shapes"
+    return
 
 
 def replay(ck, path):
